@@ -1610,6 +1610,12 @@ class Interp:
                     base.valnone = z3.Store(base.valnone, k, z3.BoolVal(False))
                     base.val = z3.Store(base.val, k, to_z3(v))
             else:
+                if isinstance(v, SOpt):
+                    # a map of plain values: storing an optional is storing its value; the None case is an error of the analysed
+                    # program only if reachable - decide it
+                    if self.ctx.decide(v.isnone, "store-of-None-into-a-typed-map"):
+                        raise Unsupported("None stored into a symbolic map of non-optional values")
+                    v = v.val
                 base.val = z3.Store(base.val, k, to_z3(v))
         elif isinstance(base, (TheoryObj, SOpaque)):
             self.call_method(base, "__setitem__", [idx, v], {})
